@@ -92,6 +92,9 @@ type Outcome struct {
 	Evals        int            `json:"evals,omitempty"` // sub-evaluations inside the run (default 1)
 	Log          []string       `json:"log,omitempty"`
 	Recorded     []sim.Switch   `json:"recorded,omitempty"` // schedule decisions taken (set when a violation was found)
+	// GatewayPanics: panics that escaped a request handler during this run ("site|value|method target"),
+	// recorded by the checks with valid workloads; C20 runs those workloads to report them
+	GatewayPanics []string `json:"gateway_panics,omitempty"`
 }
 
 // SetReplayP attaches an explicit reproducing program to the most recent violation.
